@@ -191,9 +191,11 @@ def trace_local(body, l, proj=(), depth=0, seen=None, through_calls=TRANSPARENT_
             if cd in through_calls and c.args:
                 out |= trace_operand(body, c.args[0], rest, depth=depth + 1, seen=seen, **kw)
             elif cd == TRY_BRANCH and try_transparent and rest[:2] == (('dc', 'Continue'), ('f', 0)):
-                out |= trace_operand(body, c.args[0], (('dc', 'Ok'), ('f', 0)) + rest[2:], depth=depth + 1, seen=seen, **kw)
+                is_opt = bool(c.term['arg_tys']) and c.term['arg_tys'][0].startswith('std::option::Option<')
+                out |= trace_operand(body, c.args[0], (('dc', 'Some' if is_opt else 'Ok'), ('f', 0)) + rest[2:], depth=depth + 1, seen=seen, **kw)
             elif cd == TRY_BRANCH and try_transparent and rest[:2] == (('dc', 'Break'), ('f', 0)):
-                out |= trace_operand(body, c.args[0], (('dc', 'Err'),) + rest[2:], depth=depth + 1, seen=seen, **kw)
+                is_opt = bool(c.term['arg_tys']) and c.term['arg_tys'][0].startswith('std::option::Option<')
+                out |= trace_operand(body, c.args[0], (('dc', 'None' if is_opt else 'Err'),) + rest[2:], depth=depth + 1, seen=seen, **kw)
             else:
                 out.add(Origin('callres', c, rest))
         elif kind == 'assign':
@@ -397,6 +399,7 @@ class Program:
                     self.callback_sites.append(c)
                 else:
                     self.ext_calls[body.id].append(c)
+        self._generic_edges()
         # closure-argument edges: a closure passed to a call is assumed invoked by the creator
         # at that call site
         self.closure_call_sites = {}   # closure uid -> [Call]  (the external call that runs it)
@@ -411,6 +414,42 @@ class Program:
         for a, bs in self.edges.items():
             for b in bs:
                 self.callers[b].add(a)
+
+    def _generic_edges(self):
+        """external generic code that calls back into local trait impls: Vec<T>/Box<T>/Option<T>
+        clone / eq / hash / fmt -> <T as Trait>::method;  Into::into -> From::from;
+        ToString::to_string and fmt::Argument::new_display -> Display::fmt (new_debug -> Debug::fmt).
+        Over-approximate: any local impl of the same trait whose self ADT is named in the call's
+        generic arguments."""
+        impls = {}
+        for b in self.bodies:
+            if b.impl_trait and b.impl_self:
+                m = re.match(r'^([\w:]+)', b.impl_self)
+                adt = m.group(1) if m else b.impl_self
+                impls.setdefault((b.impl_trait, b.name.split('::')[-1]), []).append((adt, b))
+        MAP = {
+            ('std::convert::Into', 'into'): ('std::convert::From', 'from'),
+            ('std::string::ToString', 'to_string'): ('std::fmt::Display', 'fmt'),
+        }
+        for body in self.bodies:
+            for c in list(self.ext_calls[body.id]):
+                if not c.fn:
+                    continue
+                tr = c.fn.get('trait')
+                meth = (c.callee or '').split('::')[-1]
+                keys = []
+                if tr:
+                    keys.append(MAP.get((tr, meth), (tr, meth)))
+                if (c.callee or '').endswith('Argument::<\'_>::new_display'):
+                    keys.append(('std::fmt::Display', 'fmt'))
+                if (c.callee or '').endswith('Argument::<\'_>::new_debug'):
+                    keys.append(('std::fmt::Debug', 'fmt'))
+                args = ' '.join(c.fn.get('args', [])) + ' ' + ' '.join(c.fn['resolved'].get('args', []))
+                for k in keys:
+                    for adt, ib in impls.get(k, []):
+                        if re.search(r'(^|[^\w:])%s\b' % re.escape(adt), args):
+                            self.edges[body.id].add(ib.id)
+                            self.edge_sites.setdefault((body.id, ib.id), []).append(c)
 
     def reach(self, entry_ids, stop=()):
         seen = set()
